@@ -55,6 +55,7 @@ func (p *defaultPoll) onhups() {
 				onhups[i](p)
 			}
 		}
+		vp(vpHupEnd, unsafe.Pointer(p), 0, 0)
 	}(hups)
 }
 
